@@ -24,9 +24,9 @@ func init() {
 				Flavours: []string{"plain", "cover", "386"},
 				Blocks:   16,
 				Procs:    16,
-				Rule: "large sets (0..3000 elements per side in every size relation, 0..1000 shared elements incl. 31..34, 63..66, 127..129, 255..257) against Go maps for all binary operations, long variadic lists, Intersect, Clone, Slice, Append; exhaustive over a universe of 5 elements: every (receiver, argument) pair of the 34 operands {nil, empty non-nil, 32 subsets incl. a second empty} for Intersects/IsSubset/Equals/AddAll/RemoveAll; every receiver x every argument list of length <= 3 (<= 4 thorough) with repetitions for HasAll/HasAny/Add/Remove/New; every 0..3-operand combination and random 4..12-operand combinations for Intersect; Append into prefixes with every amount of spare capacity from 0 to len+6; Clone/Keys/Values/Range/NewSize/Slice/Append/Pop/Clear/IsEmpty/Len/Has on every operand; results checked for value, non-nilness and non-aliasing (mutating the result must not change an argument and vice versa). " +
+				Rule: "large sets (0..3000 elements per side in every size relation, 0..1000 shared elements incl. 31..34, 63..66, 127..129, 255..257) against Go maps for all binary operations, long variadic lists, Intersect, Clone, Slice, Append; exhaustive over a universe of 5 elements: every (receiver, argument) pair of the 34 operands {nil, empty non-nil, 32 subsets incl. a second empty} for Intersects/IsSubset/Equals/AddAll/RemoveAll; every receiver x every argument list of length <= 3 (<= 4 thorough) with repetitions for HasAll/HasAny/Add/Remove/New; every 0..3-operand combination and random 4..40-operand combinations for Intersect, and two different operands tied for the smallest size at every pair of positions among 2..24 operands; Append into prefixes with every amount of spare capacity from 0 to len+6; Clone/Keys/Values/Range/NewSize/Slice/Append/Pop/Clear/IsEmpty/Len/Has on every operand; results checked for value, non-nilness and non-aliasing (mutating the result must not change an argument and vice versa). " +
 					"Histories of Add/AddAll/Remove/RemoveAll/Pop/Clear over two sets (the second used as argument of the first), starting from nil or non-nil, with membership and Len of BOTH sets after every step. distinct = enumerated operand tuples, histories by hash; non-trivial = at least one operand is non-empty",
-				Required:     []string{"binary_predicate_pairs", "variadic_cases", "variadic_with_duplicates", "intersect_cases", "aliasing_checks", "pop_checks", "history_steps", "nil_receiver_cases", "intersect_many_operands", "append_spare_capacity_cases", "second_handle_checks", "large_set_cases", "length_sweep_cases"},
+				Required:     []string{"binary_predicate_pairs", "variadic_cases", "variadic_with_duplicates", "intersect_cases", "aliasing_checks", "pop_checks", "history_steps", "nil_receiver_cases", "intersect_many_operands", "append_spare_capacity_cases", "second_handle_checks", "large_set_cases", "length_sweep_cases", "intersect_tied_smallest_operands"},
 				Exhaustive:   true,
 				Assumptions:  []string{"reference: 5-bit masks"},
 				CoverPkgs:    []string{"github.com/creachadair/mds/mapset"},
@@ -576,6 +576,9 @@ func runC18(c *fw.Ctx) {
 		var n int64
 		for k := 0; k < c.Pick(400, 6000); k++ {
 			ops := make([]int, 4+r.IntN(9))
+			if k%3 == 2 {
+				ops = make([]int, 13+r.IntN(28)) // 13..40 operands
+			}
 			base := 2 + r.IntN(1<<c18U)
 			for i := range ops {
 				switch r.IntN(6) {
@@ -596,6 +599,33 @@ func runC18(c *fw.Ctx) {
 			n++
 		}
 		c.Add("intersect_many_operands", n)
+		// two different operands tied for the smallest size, each lacking one
+		// element that all the others have, at every pair of positions among
+		// 2..24 operands (the rest are the full universe, or one element short of it)
+		full := uint(1<<c18U - 1)
+		var nt int64
+		for cnt := 2 + c.Block%2; cnt <= 24; cnt += 2 {
+			for i := 0; i < cnt; i++ {
+				for j := 0; j < cnt; j++ {
+					if i == j {
+						continue
+					}
+					ops := make([]int, cnt)
+					rest := full
+					if (i+j)%3 == 0 {
+						rest = full &^ 1 // the others are as small as the two
+					}
+					for k := range ops {
+						ops[k] = 2 + int(rest)
+					}
+					ops[i] = 2 + int(full&^(1<<uint(1+(i+cnt)%(c18U-1))))
+					ops[j] = 2 + int(full&^(1<<uint(1+(i+cnt+1+j%(c18U-2))%(c18U-1))))
+					m.intersect(ops)
+					nt++
+				}
+			}
+		}
+		c.Add("intersect_tied_smallest_operands", nt)
 		for i := c.Block; i < c18N; i += c.NBlocks {
 			s, sm := c18mk(i)
 			for spare := 0; spare <= len(s)+6; spare++ {
